@@ -92,9 +92,10 @@ def main(tier):
     chk = vcheck.Check("C02", "model_checking", tier)
     seed = vcheck.seed()
     common.model_step(chk, "C02", tier)
-    results = common.run_specs(specs(tier, seed), ["C02"])
+    results = common.run_specs(specs(tier, seed), ["C02", "TSRV", "TCLI", "TRAW"])
     common.judge(chk, results, "TraceMonProgress", "TraceMonProgress.cfg", "progress",
                  sigfn=lambda r, rej: "%s:%s" % (r["spec"].get("mode"), rej["event"].get("e")), key="C02")
+    common.bind_tunnel(chk, results)        # Layer A: the same runs as behaviours of Tunnel.tla / RawTunnel.tla (drift only)
     chk.cov["evaluations"] = len(results)
     chk.cov["distinct_nontrivial"] = len({r["label"] for r in results if r["stats"].get("must", 0) >= 3})
     chk.cov["packets_accepted"] = sum(r["stats"].get("accepted", 0) for r in results)
